@@ -25,7 +25,7 @@ PLANS = {
     "C02": dict(
         mcgen=[dict(model="MC_Cmp", quick="MC_Cmp_quick.cfg", thorough="MC_Cmp_thorough.cfg")],
         profiles=["checked", "release"],
-        drive=True,
+        drive=True, shard=12000,
     ),
     "C03": dict(
         mcgen=[dict(model="MC_Cmp", quick="MC_Cmp_quick.cfg", thorough="MC_Cmp_thorough.cfg")],
